@@ -16,7 +16,7 @@ NOT_PROVED = []
 def stages(tier, seed, witness_search=False):
     rng = Rng(seed)
     scripts = []
-    small_max = 4200 if tier == "quick" else 17500
+    small_max = 4200 if tier == "quick" else 9000
     if witness_search:
         small_max *= 2
     plats = PLATFORMS
@@ -26,7 +26,7 @@ def stages(tier, seed, witness_search=False):
         p = plats[i % len(plats)]
         i += 1
         scripts.append(Script([f"P plat {p}", f"O hash {mode_tok(rng, kind)} {pat(n, rng)}"], tags=("small", kind, p), nontrivial=n > 64))
-    max_chunks = 130 if tier == "quick" else 1100
+    max_chunks = 130 if tier == "quick" else 520
     for n in lattice_lengths(max_chunks):
         if n <= small_max and tier == "quick":
             continue
@@ -41,7 +41,7 @@ def stages(tier, seed, witness_search=False):
                 scripts.append(Script([f"P plat {p}", f"O hash derive {hexs(ctx)} {pat(n, rng)}"], tags=("contexts", p)))
     if tier == "thorough":
         for p in plats:
-            for e in range(11, 13):
+            for e in range(11, 12):
                 n = (1 << e) * 1024
                 for d in (-1, 0, 1):
                     scripts.append(Script([f"P plat {p}", f"O hash {mode_tok(rng)} {pat(n + d, rng)}"], tags=("big", p)))
